@@ -129,7 +129,7 @@ def run_c20(tier):
     pid = os.getpid()
     sched = os.path.join(common.OUT, "threads_%s_%d.ndjson" % (tier, pid))
     with open(sched, "w") as sf:
-        for jobs in (1, 2, 3, 4, 5, 6, 7, 8, 9, 10):
+        for jobs in (1, 2, 3, 4, 5, 6, 7, 8, 9, 10, 11, 12):
             for nth in ((2,) if tier == "quick" else (2, 3)):
                 cfgp = os.path.join(common.OUT, "MC_Threads_%d_%d_%s_%d.cfg" % (jobs, nth, tier, pid))
                 with open(cfgp, "w") as f:
